@@ -39,9 +39,12 @@ class BoundedOnly(Exception):
 # restricted-choice skeletons for which the panel / law-of-motion / targets contracts go through deductively
 # (create_choice_segments is used through its contract); the others stay bounded stand-ins
 DEDUCTIVE_WITH_RESTRICTED_CHOICES = ("retirement-filter", "two-restricted-states-crossed-filters", "mixed-discrete-choices")
+# ... and for which the decision contract (C02) goes through as well: segment_argmax is used through its contract
+# (C18) with an explicit representative row per agent, and the "supported" hypothesis is cut at "finite value"
+DEDUCTIVE_DECISIONS_WITH_RESTRICTED_CHOICES = ("retirement-filter", "two-restricted-states-crossed-filters")
 
 
-def bounded_only_if_restricted_choices(k, skel, clauses, deductive_ok=False):
+def bounded_only_if_restricted_choices(k, skel, clauses, deductive_ok=False, deductive_set=None):
     """With filter-restricted choices the simulation builds a data state-choice space whose row <-> (agent,
     combination) correspondence and segment numbering need counting arguments that were not mechanised:
     these skeletons are checked by the bounded stand-in only (real code, sampled small inputs), and their
@@ -52,7 +55,7 @@ def bounded_only_if_restricted_choices(k, skel, clauses, deductive_ok=False):
 
     if os.environ.get("PYVC_FULL_SIM"):
         return False
-    if deductive_ok and skel.label.split("~")[0] in DEDUCTIVE_WITH_RESTRICTED_CHOICES:
+    if deductive_ok and skel.label.split("~")[0] in (deductive_set or DEDUCTIVE_WITH_RESTRICTED_CHOICES):
         return False
     from pyvc.ctx import cur
 
@@ -105,7 +108,76 @@ def install_choice_segments_contract(k, world):
         for c in range(C):
             pc = z3.IntVal(c)
             ctx.assume(z3.Implies(z3.And(pc < N, mask.get((pc,))), z3.And(ms.rank([pc]) >= 0, ms.rank([pc]) < ms.K)), tag="mask-select")
-        return {"segment_ids": out["segment_ids"], "num_segments": n}
+        # explicit witness for "every segment is non-empty": the row of the first admissible combination of
+        # agent s (a term, no existential); segment_argmax's precondition is discharged with it at its call site
+        seg_ids = out["segment_ids"]
+
+        def representative(s_):
+            term = None
+            for c in reversed(range(C)):
+                pc = s_ * C + c
+                r_ = ms.rank([pc])
+                term = r_ if term is None else z3.If(mask.get((pc,)), r_, term)
+            return term
+
+        seg_ids._segment_witness = representative
+        return {"segment_ids": seg_ids, "num_segments": n}
+
+    world.overrides[qn] = ov
+
+    def restore():
+        if old is None:
+            world.overrides.pop(qn, None)
+        else:
+            world.overrides[qn] = old
+
+    return restore
+
+
+def install_segment_argmax_contract(k, world):
+    """contract substitution for lcm.argmax.segment_argmax (its own contract: contracts/argmax.py, C18): the
+    preconditions -- ids in range, sorted, every segment non-empty -- are obligations at the call site (the
+    last with the explicit representative row recorded by the create_choice_segments contract); the result
+    is then any pair (rows, maxima) with: the row lies in its segment, attains the segment maximum, which
+    bounds every row of the segment.  Without a recorded representative the body is executed instead."""
+    import z3
+
+    from pyvc.ctx import cur
+    from pyvc.stubs.jnp_impl import _fn, _forall, inrange, sort_of
+    from pyvc.values import SymArray, asarray, zdim
+
+    qn = "lcm.argmax.segment_argmax"
+    old = world.overrides.get(qn)
+
+    def ov(clo, args, kwargs):
+        ba = clo._c.sig.bind(*args, **kwargs)
+        data, ids, num = asarray(ba.arguments["data"]), ba.arguments["segment_ids"], ba.arguments["num_segments"]
+        rep = getattr(ids, "_segment_witness", None)
+        if rep is None or data._dtype != "float":
+            del world.overrides[qn]
+            try:
+                return clo(*args, **kwargs)
+            finally:
+                world.overrides[qn] = ov
+        ctx = cur()
+        ids = asarray(ids)
+        n, numz = data.zshape[0], zdim(num)
+        nm = ctx.fresh("segargmax")
+        jv, j2, sv = z3.Int(nm + ".j"), z3.Int(nm + ".j2"), z3.Int(nm + ".s")
+        ctx.prove_then_assume("segment_argmax-lengths", data.zshape[0] == ids.zshape[0], "pre")
+        ctx.prove_then_assume("segment_argmax-ids-in-range", _forall([jv], z3.Implies(z3.And(jv >= 0, jv < n), z3.And(ids.get((jv,)) >= 0, ids.get((jv,)) < numz)), dims=[n]), "pre")
+        ctx.prove_then_assume("segment_argmax-ids-sorted", _forall([jv, j2], z3.Implies(z3.And(0 <= jv, jv <= j2, j2 < n), ids.get((jv,)) <= ids.get((j2,))), dims=[n, n]), "pre")
+        w = rep(sv)
+        ctx.prove_then_assume("segment_argmax-every-segment-is-non-empty", _forall([sv], z3.Implies(z3.And(sv >= 0, sv < numz), z3.And(w >= 0, w < n, ids.get((w,)) == sv)), dims=[numz]), "pre")
+        tr = data.zshape[1:]
+        Tt = [z3.Int(f"{nm}.t{q}") for q in range(len(tr))]
+        A = _fn(nm + ".row", 1 + len(tr), z3.IntSort())
+        M = _fn(nm + ".max", 1 + len(tr), sort_of("float"))
+        row, mx = A(sv, *Tt), M(sv, *Tt)
+        ctx.assume(_forall([sv] + Tt, z3.Implies(z3.And(sv >= 0, sv < numz, inrange(tr, Tt)), z3.And(row >= 0, row < n, ids.get((row,)) == sv, data.get((row, *Tt)) == mx)), patterns=[row], dims=[numz] + list(tr)), tag="contract:segment_argmax")
+        ctx.assume(_forall([jv] + Tt, z3.Implies(z3.And(jv >= 0, jv < n, inrange(tr, Tt)), data.get((jv, *Tt)) <= M(ids.get((jv,)), *Tt)), dims=[n] + list(tr)), tag="contract:segment_argmax")
+        ctx.trusted.add("lcm.argmax.segment_argmax used through its contract (decided under C18)")
+        return SymArray((numz, *tr), lambda idx: A(*idx), "int"), SymArray((numz, *tr), lambda idx: M(*idx), "float")
 
     world.overrides[qn] = ov
 
@@ -178,6 +250,7 @@ def run_simulation(k, inst, targets=None, via_solve_model=False, cut=True):
     if sym:
         restores.append(install_overrides(k, k.world))
         restores.append(install_choice_segments_contract(k, k.world))
+        restores.append(install_segment_argmax_contract(k, k.world))
         S.opaque, r2 = install_opaque_uf(k, k.world, skel)
         restores.append(r2)
         S.spaces, r3 = record_spaces(k, k.world)
@@ -439,7 +512,7 @@ def decisions_contract(k, inst):
     choices are grid values; they pass all filters and constraints at the agent's current state; the reported
     value equals utility + beta * E[V_{t+1}] of the reported choices (with the value arrays passed in, shifted by
     one period); and no grid choice combination that passes filters and constraints has a larger objective."""
-    if bounded_only_if_restricted_choices(k, inst.skel, {"simulation-runs", "reported-choice-is-a-grid-value", "reported-choices-pass-filters-and-constraints", "reported-value-is-the-objective-of-the-reported-choices", "no-feasible-grid-choice-is-better"}):
+    if bounded_only_if_restricted_choices(k, inst.skel, {"simulation-runs", "reported-choice-is-a-grid-value", "reported-choices-pass-filters-and-constraints", "reported-value-is-the-objective-of-the-reported-choices", "no-feasible-grid-choice-is-better"}, deductive_ok=True, deductive_set=DEDUCTIVE_DECISIONS_WITH_RESTRICTED_CHOICES):
         return
     S = run_simulation(k, inst)
     if isinstance(S, Raised):
@@ -509,11 +582,18 @@ def decisions_contract(k, inst):
             if k.mode == "native":
                 if value == float("-inf"):
                     continue
-                supported = True
+                k.ensures(f"reported-choices-pass-filters-and-constraints[t={t}]", ok)
+                k.ensures(f"reported-value-is-the-objective-of-the-reported-choices[t={t}]", k.close(value, q))
             else:
-                supported = L.And(L.exists(csizes, lambda c: alt_of(c)[1]), L.forall(csizes, lambda c: L.Implies(alt_of(c)[1], alt_of(c)[0] > k.ninf)))
-            k.ensures(f"reported-choices-pass-filters-and-constraints[t={t}]", L.Implies(supported, ok))
-            k.ensures(f"reported-value-is-the-objective-of-the-reported-choices[t={t}]", L.Implies(supported, k.close(value, q)))
+                # "supported" = some grid combination is admissible and feasible, and feasible objectives are
+                # finite.  (exists c. P(c)) -> G  is stated in the equivalent form  forall c. (P(c) -> G)  with an
+                # arbitrary witness combination, and the argument is cut at "the reported value is finite".
+                finite = L.forall(csizes, lambda c: L.Implies(alt_of(c)[1], alt_of(c)[0] > k.ninf))
+                for wit in k.indices(csizes, name=f"wit{t}_"):
+                    supported = L.And(alt_of(wit)[1], finite)
+                    k.lemma(f"a-supported-agent-has-a-finite-value[t={t}]", L.Implies(supported, value > k.ninf))
+                    k.ensures(f"reported-choices-pass-filters-and-constraints[t={t}]", L.Implies(supported, ok))
+                    k.ensures(f"reported-value-is-the-objective-of-the-reported-choices[t={t}]", L.Implies(supported, k.close(value, q)))
             for cidx in k.indices(csizes, name=f"alt{t}_"):
                 qa, oka = alt_of(cidx)
                 k.ensures(f"no-feasible-grid-choice-is-better[t={t}]", L.Implies(oka, k.leq(qa, value)))
